@@ -19,8 +19,17 @@ def kernel_ke(K):
     return -int(np.log2(s))
 
 
+def sub_list(o, n):
+    """per-pixel sub sizes of a mapper object (`sub` is one int for all pixels or a list with one entry per unmasked pixel)"""
+    return [int(x) for x in o["sub"]] if isinstance(o["sub"], (list, tuple)) else [int(o["sub"])] * n
+
+
 def obj_scale(o):
-    return o["sub"] ** 2 if o["type"] == "mapper" else 2 ** (-o["me"])
+    if o["type"] != "mapper":
+        return 2 ** (-o["me"])
+    if isinstance(o["sub"], (list, tuple)):
+        return int(np.lcm.reduce([int(x) ** 2 for x in o["sub"]]))
+    return o["sub"] ** 2
 
 
 def cells_of(inst):
@@ -34,10 +43,14 @@ def eps_real(inst):
 def mapper_counts(o, n):
     """integer mapping matrix (counts of sub-pixels per mesh cell) implied by the instance (the spec-side meaning)"""
     my, mx = o["mesh"]
-    s2 = o["sub"] ** 2
+    subs = sub_list(o, n)
+    scale = obj_scale(o)
     M = np.zeros((n, my * mx), dtype=int)
-    for q, c in enumerate(o["cells"]):
-        M[q // s2, c] += 1
+    q = 0
+    for k, sk in enumerate(subs):
+        for _ in range(sk * sk):
+            M[k, o["cells"][q]] += scale // (sk * sk)
+            q += 1
     return M
 
 
@@ -98,7 +111,7 @@ def build(inst, with_reg_coefficient=1.0):
             pos = np.array([[(my - 1) / 2.0 - c // mx, c % mx - (mx - 1) / 2.0] for c in o["cells"]], dtype=float) + jit
             mg = aa.MapperGrids(mask=mask, source_plane_data_grid=aa.Grid2DIrregular(pos), source_plane_mesh_grid=mesh,
                                 image_plane_mesh_grid=None, adapt_data=None)
-            objs.append(aa.MapperRectangular(mapper_grids=mg, over_sampler=aa.OverSamplerUniform(mask=mask, sub_size=o["sub"]),
+            objs.append(aa.MapperRectangular(mapper_grids=mg, over_sampler=aa.OverSamplerUniform(mask=mask, sub_size=(aa.Array2D(values=np.array([int(x) for x in o["sub"]]), mask=mask) if isinstance(o["sub"], (list, tuple)) else o["sub"])),
                                              border_relocator=None, regularization=reg))
         else:
             Mr = np.array(o["M"], dtype=float) * 2.0 ** o["me"]
@@ -174,7 +187,14 @@ def random_instance(rng, H=7, W=7, interior=3, kshapes=((1, 1), (1, 3), (3, 1), 
         if ch == "m":
             my, mx = [(3, 3), (3, 4), (4, 3)][int(rng.integers(0, 3))]
             sub = int(rng.integers(1, max_sub + 1))
-            objs.append({"type": "mapper", "mesh": [my, mx], "sub": sub, "cells": [int(x) for x in rng.integers(0, my * mx, size=n * sub * sub)],
+            if max_sub >= 2 and n >= 2 and rng.random() < 0.3:
+                # a per-pixel sub-size map over {1, 2} holding both values (running sub-pixel offsets differ from k * s^2)
+                sub = [int(x) for x in rng.integers(1, 3, size=n)]
+                sub[int(rng.integers(0, n))] = 2
+                j = int(rng.integers(0, n))
+                sub[j if sub.count(2) > 1 or sub[j] == 1 else (j + 1) % n] = 1
+            ncell = sum(x * x for x in sub) if isinstance(sub, list) else n * sub * sub
+            objs.append({"type": "mapper", "mesh": [my, mx], "sub": sub, "cells": [int(x) for x in rng.integers(0, my * mx, size=ncell)],
                          "reg": bool(rng.random() < 0.8)})
         else:
             p = int(rng.integers(1, 3))
